@@ -1087,6 +1087,8 @@ type lastCall struct {
 	res Val
 	sig *types.Signature
 	str []Term // string content of []byte results at call time
+	args []Val // argument values (for a static method call the receiver is argument 0)
+	argT []types.Type
 }
 
 func calleeKey(c *ssa.CallCommon) string {
@@ -1110,6 +1112,17 @@ func (f *FnEnc) recordCall(c *ssa.CallCommon, res Val) {
 		f.lastRes = map[string]lastCall{}
 	}
 	lc := lastCall{blk: f.blk, res: res, sig: c.Signature()}
+	for _, a := range c.Args {
+		func() {
+			defer func() {
+				if r := recover(); r != nil {
+					lc.args = append(lc.args, nil)
+				}
+			}()
+			lc.args = append(lc.args, f.val(a))
+		}()
+		lc.argT = append(lc.argT, a.Type())
+	}
 	defer func() {
 		// also under "key#k": the k-th call site of this callee in the function (source order)
 		if f.callOrd == nil {
@@ -1273,8 +1286,56 @@ func (f *FnEnc) checkGate(g *Gate) {
 		fail("gate blocks were not encoded")
 		return
 	}
-	// 2. every successful return is dominated by the guarding test
+	// 2. every successful return (or, for a "before" gate, every call of the named callee) is
+	// dominated by the guarding test
+	if g.Before != "" {
+		found := 0
+		for _, b := range f.fn.Blocks {
+			for _, ins := range b.Instrs {
+				var cc *ssa.CallCommon
+				switch c := ins.(type) {
+				case *ssa.Call:
+					cc = &c.Call
+				case *ssa.Defer:
+					cc = &c.Call
+				case *ssa.Go:
+					cc = &c.Call
+				}
+				if cc == nil || calleeKey(cc) != g.Before {
+					continue
+				}
+				found++
+				why := ""
+				if !D.Dominates(b) || b == D {
+					why = "is reachable without passing"
+				} else {
+					// the test must be repeated in every loop the call is repeated in
+					for _, L := range f.loops {
+						if L.body[b] && !L.body[D] {
+							why = "is repeated in a loop that does not repeat"
+						}
+					}
+				}
+				if why != "" {
+					o := &Obligation{Name: f.oblName(name, "guards-every-call"), Kind: "gate", Fn: fnDisplayName(f.fn), Reach: tTrue, Goal: tFalse, Pos: ins.Pos(), Props: g.Props,
+						Verdict: "sat", Model: "the call of " + g.Before + " (" + e.posStr(ins.Pos()) + ") " + why + " the check that guards error \"" + g.Msg + "\"", Src: g.Cond.Src}
+					if len(o.Props) == 0 {
+						o.Props = e.curProps
+					}
+					e.obls = append(e.obls, o)
+					return
+				}
+			}
+		}
+		if found == 0 {
+			fail("no call of " + g.Before + " in the function (the guarded action was removed or replaced)")
+			return
+		}
+	}
 	for _, ret := range success {
+		if g.Before != "" {
+			break
+		}
 		if !D.Dominates(ret.Block()) {
 			if !cfgReaches(D, ret.Block()) {
 				continue // a successful return on another path (e.g. the early return for empty blocks)
